@@ -38,6 +38,8 @@ def floors(tier):
 
 
 def cases(tier, seed):
+    for name in USER_ARG_TARGETS:
+        yield {"targeted": name}
     profiles = ["blockwise", "default", "structure", "default", "projection", "filter"]
     for i in range(CONFIG[tier]["programs"]):
         yield {"gen": [seed, i], "profile": profiles[i % len(profiles)]}
@@ -47,26 +49,161 @@ def setup_worker(tier, seed):
     TIER["t"] = tier
 
 
+USER_ARG_TARGETS = ["pq_arrow_types_mapper", "pq_arrow_kwargs", "pq_fsspec_kwargs", "csv_kwargs", "map_partitions_args", "from_map_args", "apply_args", "groupby_apply_args",
+                    "isin_list", "replace_dict", "fillna_dict", "rename_dict", "astype_dict", "map_dict", "assign_user_series", "merge_user_frame", "clip_bounds", "from_dict", "loc_list",
+                    "where_user_frame", "set_index_divisions_list", "repartition_divisions_list", "drop_list", "agg_spec_dict", "query_local_dict", "from_array"]
+
+
+def _tbl(n=24):
+    import numpy as np
+
+    return pd.DataFrame({"a": np.arange(n) % 5, "b": np.arange(n) * 1.5, "c": pd.array([None if i % 4 == 0 else i for i in range(n)], dtype="Int64").astype("float64"),
+                         "s": pd.array(["x", "y", "z", "x"] * (n // 4), dtype="str"), "rid": np.arange(n)})
+
+
+def _addcols(df, d, lst):
+    return df.assign(**{k: v for k, v in d.items()}, n=len(lst))
+
+
+def user_arg_targets(scratch):
+    """name -> builder returning (collection, [mutable objects the user still holds])"""
+    import os
+
+    import dask_expr as dx
+    import numpy as np
+
+    pdf = _tbl()
+    out = {}
+
+    def pq(fs, **extra):
+        def build():
+            path = os.path.join(scratch or "/tmp", f"c05-pq-{os.getpid()}")
+            if not os.path.exists(path):
+                dx.from_pandas(pdf.assign(i=pdf.rid), npartitions=4).to_parquet(path)
+            kw = {k: (v() if callable(v) and k == "_mk" else v) for k, v in extra.items()}
+            user = kw.pop("_mk")
+            name, obj = user
+            r = dx.read_parquet(path, filesystem=fs, **{name: obj})
+            return r, [obj]
+        return build
+
+    def mapper(t):
+        import pyarrow as pa
+
+        return pd.Int64Dtype() if t == pa.int64() else None
+
+    out["pq_arrow_types_mapper"] = pq("arrow", _mk=lambda: ("arrow_to_pandas", {"types_mapper": mapper}))
+    out["pq_arrow_kwargs"] = pq("arrow", _mk=lambda: ("arrow_to_pandas", {"ignore_metadata": False, "types_mapper": mapper, "self_destruct": False}))
+    out["pq_fsspec_kwargs"] = pq("fsspec", _mk=lambda: ("dataset", {"partitioning": None}))
+
+    def csv():
+        path = os.path.join(scratch or "/tmp", f"c05-csv-{os.getpid()}")
+        if not os.path.exists(path):
+            os.makedirs(path)
+            for i in range(3):
+                pdf.iloc[i * 8:(i + 1) * 8].to_csv(os.path.join(path, f"p{i}.csv"), index=False)
+        dt = {"a": "int64", "b": "float64"}
+        usecols = ["a", "b", "s", "rid"]
+        return dx.read_csv(os.path.join(path, "p*.csv"), dtype=dt, usecols=usecols), [dt, usecols]
+
+    out["csv_kwargs"] = csv
+
+    def mp():
+        d, lst = {"k1": 1, "k2": 2.5}, [1, 2, 3]
+        x = dx.from_pandas(pdf, npartitions=4)
+        return x.map_partitions(_addcols, d, lst, meta=_addcols(pdf.iloc[:0], d, lst)), [d, lst]
+
+    out["map_partitions_args"] = mp
+
+    def fm():
+        args = {"cols": ["a", "b"]}
+        chunks = [pdf.iloc[:10], pdf.iloc[10:]]
+        return dx.from_map(lambda c, cols=None: c[cols["cols"]] if isinstance(cols, dict) else c, chunks, cols=args), [args, chunks[0], chunks[1]]
+
+    out["from_map_args"] = fm
+
+    def ap():
+        d = {"a": 2}
+        x = dx.from_pandas(pdf, npartitions=3)
+        return x.apply(lambda r, w: r["a"] * w["a"] + r["rid"], axis=1, args=(d,), meta=(None, "int64")), [d]
+
+    out["apply_args"] = ap
+
+    def ga():
+        d = {"w": 3}
+        x = dx.from_pandas(pdf, npartitions=3)
+        return x.groupby("a")[["b", "rid"]].apply(lambda g, w: g.sum() * w["w"], d, meta={"b": "f8", "rid": "i8"}), [d]
+
+    out["groupby_apply_args"] = ga
+
+    def simple(fn, *objs_fn):
+        def build():
+            objs = [o() for o in objs_fn]
+            x = dx.from_pandas(pdf, npartitions=4)
+            return fn(x, *objs), objs
+        return build
+
+    out["isin_list"] = simple(lambda x, l: x[x.a.isin(l)], lambda: [1, 2, 9])
+    out["replace_dict"] = simple(lambda x, d: x[["a", "rid"]].replace(d), lambda: {1: 100, 2: 200})
+    out["fillna_dict"] = simple(lambda x, d: x.fillna(d), lambda: {"c": 0.0})
+    out["rename_dict"] = simple(lambda x, d: x.rename(columns=d)[["A", "rid"]], lambda: {"a": "A", "b": "B"})
+    out["astype_dict"] = simple(lambda x, d: x.astype(d), lambda: {"a": "float64", "rid": "int32"})
+    out["map_dict"] = simple(lambda x, d: x.a.map(d, meta=("a", "f8")), lambda: {0: 1.5, 1: 2.5})
+    out["assign_user_series"] = simple(lambda x, s: x.assign(z=dx.from_pandas(s, npartitions=4)), lambda: pd.Series(np.arange(24) * 2.0, name="z"))
+    out["merge_user_frame"] = simple(lambda x, f: x.merge(f, on="a"), lambda: pd.DataFrame({"a": [0, 1, 2], "w": [10, 20, 30]}))
+    out["clip_bounds"] = simple(lambda x, l: x[["a", "b"]].clip(lower=l[0], upper=l[1]), lambda: [1, 3])
+    out["from_dict"] = lambda: (lambda d: (dx.from_dict(d, npartitions=2), [d]))({"p": [1, 2, 3, 4], "q": [1.5, 2.5, 3.5, 4.5]})
+    out["loc_list"] = simple(lambda x, l: x.loc[l], lambda: [2, 5, 17])
+    out["where_user_frame"] = simple(lambda x, f: x[["a", "b"]].where(x[["a", "b"]] > 1, dx.from_pandas(f, npartitions=4)), lambda: pd.DataFrame({"a": np.zeros(24, dtype="int64"), "b": np.ones(24)}))
+    out["set_index_divisions_list"] = simple(lambda x, l: x.set_index("rid", divisions=l), lambda: [0, 8, 16, 23])
+    out["repartition_divisions_list"] = simple(lambda x, l: x.repartition(divisions=l), lambda: [0, 5, 23])
+    out["drop_list"] = simple(lambda x, l: x.drop(columns=l), lambda: ["s", "c"])
+    out["agg_spec_dict"] = simple(lambda x, d: x.groupby("a").agg(d), lambda: {"b": ["sum", "max"], "rid": "min"})
+    out["query_local_dict"] = simple(lambda x, d: x.query("a > @thr", local_dict=d), lambda: {"thr": 2})
+    out["from_array"] = lambda: (lambda arr: (dx.from_array(arr, chunksize=5, columns=["p", "q"]), [arr]))(np.arange(24.0).reshape(12, 2))
+    return out
+
+
 def run_case(case):
     conf = CONFIG[TIER["t"]]
-    prog = case["prog"] if "prog" in case else progcase.gen_prog(("C05",) + tuple(case["gen"]), profile=case.get("profile", "default"), two_prob=0.5)
-    rng = derive_rng("C05", shash(prog))
-    method = case.get("shuffle") or rng.choice(["tasks", "tasks", "disk"])
     counters, sets = {}, {"order_hashes": [], "thread_completion_orders": []}
     rec = {"status": "ok", "counters": counters, "sets": sets, "nt": []}
 
     def bump(k, v=1):
         counters[k] = counters.get(k, 0) + v
 
-    b = progcase.Built(prog).build_sources()
-    try:
-        b.eval_pd()
-        b.eval_dx(method)
-    except Exception:
-        return {"status": "refused", "counters": {"build_refused": 1}}
-    flags = {"order": b.out_pd.order, "index": b.out_pd.index}
-    q = b.out_dx
-    src_fp = [fp(t) for t in b.tables]
+    if "targeted" in case:
+        # queries that embed mutable objects the USER holds (keyword dicts, lists, mappers, frames) in their tasks
+        import copy
+        import os
+
+        tg = user_arg_targets(os.environ.get("VMON_SCRATCH"))
+        if case["targeted"] not in tg:
+            return {"status": "undecided", "counters": {"unknown_target": 1}}
+        prog = {"targeted": case["targeted"]}
+        rng = derive_rng("C05", case["targeted"])
+        method = "tasks"
+        try:
+            q, user_objs = tg[case["targeted"]]()
+        except Exception as ex:
+            return {"status": "refused", "counters": {"build_refused": 1}, "sets": {"build_refusals": [f"{case['targeted']}:{type(ex).__name__}"]}}
+        flags = {"order": True, "index": True}
+        tables = list(user_objs)
+        bump("user_argument_targets")
+    else:
+        prog = case["prog"] if "prog" in case else progcase.gen_prog(("C05",) + tuple(case["gen"]), profile=case.get("profile", "default"), two_prob=0.5)
+        rng = derive_rng("C05", shash(prog))
+        method = case.get("shuffle") or rng.choice(["tasks", "tasks", "disk"])
+        b = progcase.Built(prog).build_sources()
+        try:
+            b.eval_pd()
+            b.eval_dx(method)
+        except Exception:
+            return {"status": "refused", "counters": {"build_refused": 1}}
+        flags = {"order": b.out_pd.order, "index": b.out_pd.index}
+        q = b.out_dx
+        tables = b.tables
+    src_fp = [fp(t) for t in tables]
     viol = None
     with dask.config.set({"dataframe.shuffle.method": method}):
         for fuse in ((True, False) if rng.random() < 0.5 else (True,)):
@@ -157,16 +294,17 @@ def run_case(case):
             except Exception:
                 bump("compute_raises")
         if viol is None:
-            for i, t in enumerate(b.tables):
+            for i, t in enumerate(tables):
                 if fp(t) != src_fp[i]:
                     viol = {"oracle": "task_mutation", "symptom": "user-source-frame-mutated", "table": i}
     if viol:
-        viol["ops"] = programs.program_ops(prog)
+        targeted = "targeted" in prog
+        viol["ops"] = [prog["targeted"]] if targeted else programs.program_ops(prog)
         viol["shuffle"] = method
-        viol["src"] = programs.program_source(prog)
+        viol["src"] = [f"targeted:{prog['targeted']}"] if targeted else programs.program_source(prog)
         rec["status"] = "violation"
         rec["viol"] = viol
-        rec["case"] = {"prog": prog, "shuffle": method}
+        rec["case"] = {"targeted": prog["targeted"]} if targeted else {"prog": prog, "shuffle": method}
     if case.get("gen") and case["gen"][1] in (0, 4):
         rec["sample"] = {"program": programs.program_source(prog), "shuffle": method, "distinct_orders": len(set(sets["order_hashes"])),
                          "distinct_thread_completion_orders": len(set(sets["thread_completion_orders"]))}
